@@ -951,6 +951,8 @@ func DefaultIntrinsics() map[string]externalFn {
 		return x.v == nil
 	}
 	m["runtime/debug.Stack"] = func(fr *frame, a []value) value { return []value{} }
+	// runtime.NewScheme names itself after its call site (runtime.Caller): a fixed name
+	m["k8s.io/apimachinery/pkg/util/naming.GetNameFromCallsite"] = func(fr *frame, a []value) value { return "verif-callsite" }
 	m["time.Now"] = func(fr *frame, a []value) value {
 		// deterministic clock: 2026-01-01T00:00:00Z plus one second per call (wall=0: no monotonic part)
 		px := fr.i.px
